@@ -14,9 +14,6 @@
 //              failunwrap     harness-side spawner whose final unwrap() fails
 //     flag bits: 1 catable, 2 appendable, 4 magic_number, 8 favor_cpu_efficiency, 16 large_window
 //   answer: <OK n=<n>|ERR:<kind>|PANIC(..)> back=<1|0> bound=<b> dec=<ok|fail|na> h=<hash> [T=<trace>]
-//
-//   G <thread_index> <num_threads> <file_size>   -> ranges as recorded by the hook for a run whose
-//                                                   input has that size (zero bytes, quality 0)
 use alloc_no_stdlib::SliceWrapper;
 use brotli::enc::backward_references::{BrotliEncoderParams, UnionHasher};
 use brotli::enc::threading::{
